@@ -422,7 +422,7 @@ def gen_dm(rng, tier):
 
 
 def gen_cases(rng, tier, scale):
-    n_tv, n_dm = (1300, 900) if tier == 'quick' else (16000, 9000)
+    n_tv, n_dm = (1300, 900) if tier == 'quick' else (13000, 7000)
     scale = min(scale, 3)      # a broken proof/translation obligation: search three times as many cases
     cases = [gen_tv(rng, tier) for _ in range(n_tv * scale)] + [gen_dm(rng, tier) for _ in range(n_dm * scale)]
     return cases
